@@ -606,6 +606,25 @@ def _kill_stray_cbmc():
             pass
 
 
+def _run_group(cmd, timeout, cwd, env):
+    """run a command in its own process group; on timeout kill the whole group (cargo-kani leaves CBMC behind otherwise)"""
+    import signal
+    p = subprocess.Popen(cmd, stdout=subprocess.PIPE, stderr=subprocess.STDOUT, text=True, cwd=cwd, env=env, start_new_session=True)
+    try:
+        out, _ = p.communicate(timeout=timeout)
+        return out or "", False
+    except subprocess.TimeoutExpired:
+        try:
+            os.killpg(p.pid, signal.SIGKILL)
+        except Exception:
+            pass
+        try:
+            out, _ = p.communicate(timeout=30)
+        except Exception:
+            out = ""
+        return out or "", True
+
+
 def kani_playback_batch(package, harnesses, log=None, timeout=2400):
     """Re-run the failing harnesses of one package in ONE cargo-kani call (-j 16) with concrete playback;
     returns {harness: [test, ...]} (tests are attributed by the generated test-function name)."""
@@ -617,11 +636,7 @@ def kani_playback_batch(package, harnesses, log=None, timeout=2400):
            "--harness-timeout", "600s"]
     for h in harnesses:
         cmd += ["--harness", h]
-    try:
-        p = subprocess.run(cmd, capture_output=True, text=True, timeout=timeout, cwd=WS, env=KANI_ENV)
-        out = p.stdout + "\n" + p.stderr
-    except subprocess.TimeoutExpired as e:
-        out = (e.stdout or b"").decode("utf8", "replace") if isinstance(e.stdout, bytes) else (e.stdout or "")
+    out, _timed_out = _run_group(cmd, timeout, WS, KANI_ENV)
     if log:
         with open(log, "w") as f:
             f.write(out)
@@ -649,15 +664,13 @@ def _parse_playback(out):
     return tests
 
 
-def kani_playback_values(package, harness, log=None, timeout=1800):
+def kani_playback_values(package, harness, log=None, timeout=600):
     """Re-run one failing harness with concrete playback and return a list of
     {check, values:[[bytes]...], comments:[str]}"""
     cmd = ["cargo", "kani", "-p", package, "--harness", harness, "--output-format", "terse",
            "-Z", "function-contracts", "-Z", "stubbing", "-Z", "concrete-playback", "--concrete-playback=print"]
-    try:
-        p = subprocess.run(cmd, capture_output=True, text=True, timeout=timeout, cwd=WS, env=KANI_ENV)
-        out = p.stdout + "\n" + p.stderr
-    except subprocess.TimeoutExpired:
+    out, timed_out = _run_group(cmd, timeout, WS, KANI_ENV)
+    if timed_out:
         return []
     if log:
         with open(log, "w") as f:
